@@ -751,4 +751,22 @@ theorem switch_off_data_touches_nothing (inp : Input) (fuel : Nat) (hoff : inp.a
     (hd : inp.entry = Entry.data) : mediaOf (load inp fuel).1.log = [] := by
   simp [mediaOf, switch_off_data_reads_nothing inp fuel hoff hd]
 
+open KinModel.Gen in
+/-- The Loader has exactly the fields the model knows: two exported switches, the context, and the private state of
+`loader_state_as_modelled`. A new field — state kept between calls, or a private copy of a switch — breaks this. -/
+theorem loader_fields_as_modelled :
+    (loaderState.filter (fun r => r.access == "field")).map (fun r => r.detail) =
+      ["IsExternalRefsAllowed bool", "ReadFromURIFunc ReadFromURIFunc", "Context context.Context", "rootDir string",
+       "rootLocation string", "visitedPathItemRefs map[string]struct{}", "visitedDocuments map[string]*T",
+       "visitedRefs map[string]struct{}", "visitedPath []string", "backtrack map[string][]func(value any)"] := by decide
+
+open KinModel.Gen in
+/-- The switch is READ, at the moment of every guard call, by `allowsExternalRefs` and by nothing else (never assigned,
+never copied into other state by the library): the model's guard uses the `allowed` of the current call, for every
+entry point including a direct `ResolveRefsIn` on a used Loader. Likewise the overridable reader is read by `readURL` only. -/
+theorem switch_read_by_guard_only :
+    (∀ r ∈ loaderState, r.field = "IsExternalRefsAllowed" → r.fn = "allowsExternalRefs" ∧ r.access = "read") ∧
+    (∃ r ∈ loaderState, r.field = "IsExternalRefsAllowed" ∧ r.fn = "allowsExternalRefs") ∧
+    (∀ r ∈ loaderState, r.field = "ReadFromURIFunc" → r.fn = "readURL" ∧ r.access = "read") := by decide
+
 end KinModel.Reads
